@@ -17,6 +17,7 @@ package processor
 
 import (
 	"context"
+	"errors"
 	"fmt"
 	"log"
 	"sync"
@@ -50,6 +51,27 @@ type lfsResult struct {
 	err           error
 }
 
+// lfsFetchError marks a failed blob download, as opposed to a downloaded blob
+// that is rejected (checksum mismatch, payload above the size limit).
+type lfsFetchError struct {
+	err error
+}
+
+func (e *lfsFetchError) Error() string { return e.err.Error() }
+func (e *lfsFetchError) Unwrap() error { return e.err }
+
+type lfsFetchMarker struct {
+	lfs.S3Reader
+}
+
+func (m lfsFetchMarker) Fetch(ctx context.Context, key string) ([]byte, error) {
+	data, err := m.S3Reader.Fetch(ctx, key)
+	if err != nil {
+		return nil, &lfsFetchError{err: err}
+	}
+	return data, nil
+}
+
 func (p *Processor) resolveLfsRecords(ctx context.Context, records []sink.Record, lfsCfg config.LfsConfig, topic string) ([]sink.Record, error) {
 	if len(records) == 0 || lfsCfg.Mode == lfsModeOff {
 		return records, nil
@@ -66,10 +88,14 @@ func (p *Processor) resolveLfsRecords(ctx context.Context, records []sink.Record
 		workers = 1
 	}
 
+	reader := p.lfsS3
+	if reader != nil {
+		reader = lfsFetchMarker{S3Reader: reader}
+	}
 	resolver := lfs.NewResolver(lfs.ResolverConfig{
 		MaxSize:          lfsCfg.MaxInlineSize,
 		ValidateChecksum: lfsCfg.ChecksumEnabled(),
-	}, p.lfsS3)
+	}, reader)
 
 	var wg sync.WaitGroup
 	for i := 0; i < workers; i++ {
@@ -127,10 +153,15 @@ func (p *Processor) resolveLfsRecords(ctx context.Context, records []sink.Record
 		close(results)
 	}()
 
+	var fetchErr error
 	for res := range results {
 		if res.err != nil {
 			metrics.LfsResolutionErrorsTotal.WithLabelValues(topic, "resolve").Inc()
 			log.Printf("lfs resolve failed topic=%s offset=%d: %v", topic, res.record.Offset, res.err)
+			var fe *lfsFetchError
+			if fetchErr == nil && errors.As(res.err, &fe) {
+				fetchErr = fmt.Errorf("lfs fetch offset %d: %w", res.record.Offset, res.err)
+			}
 			continue
 		}
 		if res.keep {
@@ -140,6 +171,13 @@ func (p *Processor) resolveLfsRecords(ctx context.Context, records []sink.Record
 			metrics.LfsResolvedTotal.WithLabelValues(topic).Inc()
 			metrics.LfsResolvedBytesTotal.WithLabelValues(topic).Add(float64(res.resolvedBytes))
 		}
+	}
+
+	// A blob that could not be downloaded may be available on the next attempt.
+	// Fail the whole batch so that the caller retries the segment instead of
+	// committing its last offset without this record.
+	if fetchErr != nil {
+		return nil, fetchErr
 	}
 
 	filtered := make([]sink.Record, 0, len(records))
